@@ -88,6 +88,11 @@ CLAUSE = {
                       "(a valid frame received in the SAME read is handed over without waiting for further data)",
     "live_stale_bytes": "one malformed frame can never block the frames that follow it on a live connection "
                         "(bytes left over when a connection dies are not part of the next connection's stream)",
+    "split_marker_lost": "one malformed frame can never block the frames that follow it (a complete, self-delimiting "
+                         "malformed frame: the valid frames behind it are returned however the stream is split)",
+    "live_split_marker_lost": "one malformed frame can never block the frames that follow it on a live connection (a "
+                              "complete, self-delimiting malformed frame: the valid frames behind it are delivered "
+                              "however the stream is split into reads)",
     "baseline": "valid frames that follow are decoded (sanity: an undamaged stream is returned frame by frame)",
 }
 
@@ -914,6 +919,110 @@ def stale_case(m, kind, k):
         w.close()
 
 
+SELF_DELIMITED = re.compile(rb"\x0110=\d{3}\x01$")
+
+
+def self_delimiting(m):
+    """Complete frame candidate: one start marker, ends with its own SOH-terminated CheckSum field."""
+    return m.count(MARK) == 1 and SELF_DELIMITED.search(m) is not None and len(m) < 3000
+
+
+def _sim_reads(chunks, frames):
+    """Read-loop discipline on a fresh Codec; which of ``frames`` were returned (None on any irregularity)."""
+    new_codec()
+    buf = b""
+    got = set()
+    for ch in chunks:
+        buf += ch
+        for _ in range(len(buf) + 2):
+            r = call(buf)
+            if r[0] != "ok" or not isinstance(r[2], int) or not 0 <= r[2] <= len(buf):
+                return None
+            if r[2] > 0:
+                buf = buf[r[2]:]
+            if r[1] is None:
+                if r[2] > 0 and buf:
+                    continue  # skipped bytes: keep decoding what is already there
+                break
+            for i, f in enumerate(frames):
+                if isinstance(r[3], (bytes, bytearray)) and bytes(r[3]) == f:
+                    got.add(i)
+        else:
+            return None
+    return got
+
+
+def _live_reads(m, chunks, ids, S, T, root, rep):
+    w, v = _live_open(S, T, root, rep)
+    try:
+        if v:
+            return None
+        d0 = len(w.c.delivered)
+        for ch in chunks:
+            w.feed(ch)
+        if w.livelock:
+            return None
+        got = [d.get("11") for (_t, _n, d) in w.c.delivered[d0:]]
+        return ([x for x in got if x in ids], w.c.n_disconnect > 0, len(msg_buffer(w.c)))
+    finally:
+        w.close()
+
+
+def split_case(m, kind, only=None):
+    """A self-delimiting malformed frame + 2 valid frames: uncut versus one cut 1..6
+    bytes into the first valid frame (= inside its start marker). The peer does not
+    count the rejected frame, so both valid frames carry the expected numbers.
+    Returns list of (violation, outcome)."""
+    S, T, root = ST["S"], ST["T"], ST["root"]
+    if not self_delimiting(m):
+        return [(None, "split:not_self_delimiting")]
+    res = []
+    ids = ["%s%d" % (root, 8000 + i) for i in (0, 1)]
+    fr = [refs.frame("D", 3 + i, T, S, tail_body(8000 + i, root)) for i in (0, 1)]
+    stream = m + fr[0] + fr[1]
+    cause = cause_of(m)
+    if cause == "well_formed":
+        cause = session_cause(m)
+    fine = cause
+    if cause in ("beginstring_wrong", "bodylength_no_equals", "second_field_not_bodylength"):
+        cause = "header_field_rejected"  # one family: the frame is refused at its first two fields
+    for stage in ("sim", "live"):
+        if only and only[0] != stage:
+            continue
+        rep0 = {"mode": "split", "stage": stage, "input": m, "kind": kind, "S": S, "T": T, "root": root}
+        if stage == "sim":
+            ref = _sim_reads([stream], fr)
+            ok_ref = ref == {0, 1}
+        else:
+            ref = _live_reads(m, [stream], ids, S, T, root, rep0)
+            ok_ref = ref is not None and ref[0] == ids and not ref[1]
+        if not ok_ref:
+            res.append((None, "split:%s:uncut_not_both_unconstrained" % stage))
+            continue
+        for c in range(1, 7):
+            if only and only[1] != c:
+                continue
+            cut = len(m) + c
+            chunks = [stream[:cut], stream[cut:]]
+            rep = dict(rep0, cut=c)
+            if stage == "sim":
+                obs = _sim_reads(chunks, fr)
+                bad = obs != ref
+                shown = None if obs is None else sorted(obs)
+            else:
+                obs = _live_reads(m, chunks, ids, S, T, root, rep)
+                bad = obs is None or obs[0] != ref[0] or obs[1] != ref[1]
+                shown = obs
+            if bad:
+                sig = "split_marker_lost" if stage == "sim" else "live_split_marker_lost"
+                res.append((_v(sig, cause, {"input": m[:400], "first_read_ends_with": stream[len(m):cut],
+                                            "uncut": sorted(ref) if stage == "sim" else ref, "cut": shown,
+                                            "valid_frames": 2, "cause": fine}, rep), "violation"))
+            else:
+                res.append((None, "split:%s:ok" % stage))
+    return res
+
+
 # --------------------------------------------------------------------------
 # enumeration
 # --------------------------------------------------------------------------
@@ -1027,6 +1136,9 @@ def _work_crafted(i):
     for k in (0, 1):
         v, o = stale_case(m, "crafted", k)
         acc.live += 1
+        acc.add(rank, v, "crafted:" + o)
+    for v, o in split_case(m, "crafted"):
+        acc.live += ":live:" in o or (v is not None and v["signature"].startswith("live_"))
         acc.add(rank, v, "crafted:" + o)
     acc.calls = CALLS - c0
     return acc.pack()
@@ -1171,6 +1283,9 @@ def replay(ctx, rep):
         v, _o = held_back_case(m, rep["kind"], rep["k"])
     elif mode == "stale":
         v, _o = stale_case(m, rep["kind"], rep["k"])
+    elif mode == "split":
+        out = split_case(m, rep["kind"], only=(rep["stage"], rep["cut"]))
+        return [v for v, _o in out if v]
     else:
         raise HarnessError("unknown replay mode %r" % (mode,))
     return [v] if v else []
